@@ -13,7 +13,11 @@ RULE = ("harness c12: (i) formula records 120xx/121xx: every translated public *
         "formula GENERATED from the same source; (ii) exact-window records 125xx/126xx: the operation runs with a scratch of "
         "EXACTLY tmp_bytes bytes at a 64-aligned address inside a canary-filled allocation, the observed panic class "
         "(none / 'Attempted to take' / 'scratch.available() <') must equal fail_kind of the hand-written take tree; "
-        "(iii) independence records 127xx/128xx (extra phase): two different garbage fills, outputs compared byte for byte. "
+        "(iii) independence records 127xx/128xx (extra phase): two different garbage fills, outputs compared byte for byte; this phase also "
+        "runs the operations that have no take tree (oracle only): key/matrix encryption routines, GGSW key-switch / automorphism / expansion, "
+        "automorphism-key automorphism, LWE key-switch and LWE<->GLWE conversions, glwe_pack, tensor relinearize / square / add_assign, "
+        "mul_plain(_assign), mul_const_assign, 14 CKKS leveled operations (reference backends) and CGGI blind rotation (key encryption, "
+        "preparation, execute). "
         "distinct = distinct (op, backend, shape)")
 ASSUMPTIONS = [
     "take trees are hand transcriptions of the Rust control flow; they are tied to the implementation by the exact-window "
@@ -36,7 +40,17 @@ OPN = {1: "vec_znx_normalize", 2: "vec_znx_normalize_assign", 3: "vec_znx_rsh", 
        106: "glwe_keyswitch", 107: "glwe_keyswitch_assign", 108: "glwe_external_product", 109: "glwe_external_product_assign",
        110: "glwe_automorphism", 111: "glwe_automorphism_add", 112: "glwe_trace", 113: "glwe_normalize", 114: "glwe_rsh",
        115: "glwe_rotate_assign", 116: "glwe_mul_const", 117: "glwe_lsh_assign", 118: "glwe_public_key_generate", 120: "gglwe_prepare", 121: "ggsw_prepare", 122: "gglwe_keyswitch",
-       123: "gglwe_external_product", 124: "ggsw_external_product", 125: "glwe_mul_plain", 126: "glwe_tensor_apply"}
+       123: "gglwe_external_product", 124: "ggsw_external_product", 125: "glwe_mul_plain", 126: "glwe_tensor_apply",
+       130: "gglwe_encrypt_sk", 131: "ggsw_encrypt_sk", 132: "glwe_switching_key_encrypt_sk", 133: "glwe_automorphism_key_encrypt_sk",
+       134: "glwe_tensor_key_encrypt_sk", 135: "gglwe_to_ggsw_key_encrypt_sk", 136: "lwe_switching_key_encrypt_sk",
+       137: "glwe_to_lwe_key_encrypt_sk", 138: "lwe_to_glwe_key_encrypt_sk", 140: "ggsw_keyswitch", 141: "ggsw_automorphism",
+       142: "glwe_automorphism_key_automorphism", 143: "lwe_keyswitch", 144: "glwe_from_lwe", 145: "lwe_from_glwe", 146: "ggsw_from_gglwe",
+       147: "glwe_pack", 148: "glwe_tensor_relinearize", 149: "glwe_tensor_square_apply", 150: "glwe_mul_plain_assign",
+       151: "glwe_mul_const_assign", 152: "glwe_tensor_apply_add_assign",
+       160: "ckks_encrypt_sk", 161: "ckks_decrypt", 162: "ckks_add", 163: "ckks_mul", 164: "ckks_square", 165: "ckks_mul_pt_vec_znx",
+       166: "ckks_rescale", 167: "ckks_rotate", 168: "ckks_conjugate", 169: "ckks_mul_pow2", 170: "ckks_div_pow2",
+       171: "ckks_add_pt_vec_znx", 172: "ckks_neg", 173: "ckks_align",
+       180: "blind_rotation_key_encrypt_sk", 181: "blind_rotation_key_prepare", 182: "blind_rotation_execute"}
 
 
 def _parse(record):
@@ -74,8 +88,12 @@ def classify(record):
         return "cnv_pairwise_apply_dft.args_swapped"
     if op == 116:
         return "glwe_mul_const.underestimate"
-    if op in (125, 126):
+    if op in (125, 126, 149, 150, 152, 165):
         return f"{name}.cnv_args_swapped"
+    if op in (140, 141, 146):
+        return f"{name}.expand_rows_res_dft"
+    if op == 147:
+        return "glwe_pack.trace_inner_assert"
     if op == 112:
         return "glwe_trace.inner_assert"
     if n < 8:
